@@ -158,3 +158,87 @@ func c15EmptySources(cases string, res *Result) {
 		}
 	}
 }
+
+// c15RewrittenWithinTheSecond: with caching disabled every call re-reads the loaders: also when the file was written
+// again with the very same modification time (two builds within a second, a tool that pins times), for the compiled
+// loader, the file-system loader, and a new engine that shares the loader instance.
+func c15RewrittenWithinTheSecond(cases string, res *Result) {
+	dir := filepath.Join(filepath.Dir(cases), "c15samesecond")
+	defer os.RemoveAll(dir)
+	pinned := time.Now().Add(-time.Hour).Truncate(time.Second)
+	for _, kind := range []string{"compiled", "files"} {
+		for _, mode := range []string{"cache-off", "development-mode", "new-engine-same-loader"} {
+			os.RemoveAll(dir)
+			os.MkdirAll(dir, 0o755)
+			write := func(src string) bool {
+				if kind == "files" {
+					p := filepath.Join(dir, "t.twig")
+					if os.WriteFile(p, []byte(src), 0o644) != nil {
+						return false
+					}
+					return os.Chtimes(p, pinned, pinned) == nil
+				}
+				w := twig.New()
+				if w.RegisterString("t", src) != nil || twig.NewCompiledLoader(dir).SaveCompiled(w, "t") != nil {
+					return false
+				}
+				files, _ := filepath.Glob(filepath.Join(dir, "t*"))
+				for _, f := range files {
+					os.Chtimes(f, pinned, pinned)
+				}
+				return len(files) > 0
+			}
+			if !write("first text") {
+				return
+			}
+			var ld twig.Loader
+			if kind == "files" {
+				ld = twig.NewFileSystemLoader([]string{dir})
+			} else {
+				ld = twig.NewCompiledLoader(dir)
+			}
+			mk := func() *twig.Engine {
+				e := twig.New()
+				switch mode {
+				case "cache-off", "new-engine-same-loader":
+					e.SetCache(false)
+				case "development-mode":
+					e.SetDevelopmentMode(true)
+				}
+				e.RegisterLoader(ld)
+				return e
+			}
+			eng := mk()
+			c := Case{"stream": "rewritten-within-the-second", "loader": kind, "mode": mode}
+			res.Hist["stream:rewritten-within-the-second"]++
+			step := func(what, want string) bool {
+				res.Evaluations++
+				got, err := eng.Render("t", nil)
+				if err != nil {
+					got = "error: " + err.Error()
+				}
+				if got != want {
+					res.add(Finding{Kind: "oracle", Where: "rewritten-within-the-second: " + what, Case: c, Expected: want, Observed: got,
+						Detail: "caching is disabled; the file was written again and carries the same modification time as before"})
+					return false
+				}
+				return true
+			}
+			if !step("first version", "first text") {
+				continue
+			}
+			for i, v := range []string{"second text, longer than the first", "third", "4"} {
+				if !write(v) {
+					break
+				}
+				if mode == "new-engine-same-loader" {
+					eng = mk()
+				}
+				if !step(fmt.Sprintf("rewrite %d", i+1), v) {
+					break
+				}
+			}
+			twig.SetDebugLevel(twig.DebugOff)
+		}
+	}
+}
